@@ -444,7 +444,8 @@ func schemaKnownNames(p *h.PathState) (names []string, certain bool) {
 			for _, it := range mc.Items {
 				switch {
 				case it.Attr != nil:
-					if mc.Body.Attr(it.Attr.Name) != nil || mc.Body.Any != nil {
+					cnt, fe, _, _ := model.HasExt(mc.Body)
+					if mc.Body.Attr(it.Attr.Name) != nil || mc.Body.Any != nil || (cnt && it.Attr.Name == "count") || (fe && it.Attr.Name == "for_each") {
 						names = append(names, prefix+it.Attr.Name)
 					}
 				case it.Block != nil:
